@@ -2,6 +2,7 @@
   C12 — Any input is either loaded or rejected with a diagnostic.
 -/
 import N2V.Model.Load
+import N2V.Lemmas.DepfileTotal
 import N2V.Model.Depfile
 namespace N2V.C12
 open N2V N2V.Scanner N2V.Load
@@ -117,5 +118,17 @@ theorem empty_path_diagnosed (l : Loader) : ∃ e, path l [] = .error e := ⟨_,
     is structural in the remaining depth. -/
 theorem include_depth_bounded (ext : Bool) (fs : Fs) (l : Loader) (file content : Bytes) (vars : Eval.StrMap) (d : Nat) :
     ∃ e, parseFile ext fs 0 l file content vars d = .error e := ⟨_, rfl⟩
+
+
+/-- **Every depfile is either read or rejected with a diagnostic** (byte level, all inputs): the
+    model of `depfile::parse` — scanner with its NUL sentinel, `back` including its `\r\n` quirk,
+    line counter, every loop — returns entries or a parse error with an offset for EVERY byte
+    string; the outcomes "read outside the buffer", "stepped back before the start", "line counter
+    wrapped" and "out of fuel" (= a loop that does not advance) are unreachable
+    (Lemmas/Scanner: `read_ok`, `back_ok`; Lemmas/DepfileTotal). -/
+theorem depfile_parse_total (text : Bytes) : match Depfile.parse text with
+    | .ok _ _ => True
+    | .perr _ _ => True
+    | .bad _ => False := Depfile.parse_total text
 
 end N2V.C12
